@@ -1,18 +1,23 @@
 import AuthbossModel.DriverCS
+import AuthbossModel.Machine.Wire
 
 open AuthbossModel
 
-def dispatch (line : String) : String :=
+/-- Stateless sub-models answer per line; the machine keeps its state between lines. -/
+def dispatch (d : M.DState) (line : String) : M.DState × String :=
   match (line.trimAscii.toString.splitOn " ").filter (· ≠ "") with
-  | "csrw" :: args => CS.handle args
-  | _ => "bad-op"
+  | "csrw" :: args => (d, CS.handle args)
+  | "mcfg" :: args => M.handleLine d ("mcfg" :: args)
+  | "m" :: args => M.handleLine d ("m" :: args)
+  | _ => (d, "bad-op")
 
-partial def loop (h : IO.FS.Stream) (out : IO.FS.Stream) : IO Unit := do
+partial def loop (h : IO.FS.Stream) (out : IO.FS.Stream) (d : M.DState) : IO Unit := do
   let line ← h.getLine
   if line.isEmpty then return ()
-  out.putStrLn (dispatch line)
-  loop h out
+  let (d', o) := dispatch d line
+  out.putStrLn o
+  loop h out d'
 
 def main : IO Unit := do
   let out ← IO.getStdout
-  loop (← IO.getStdin) out
+  loop (← IO.getStdin) out {}
